@@ -110,12 +110,28 @@ def str_split(ex, state, sv, args):
     raise Unsupported("str.split (needs a contract-level model)")
 
 
-# ---- bytes <-> array('B')
+# ---- octet-wide bit operations between two symbolic operands (defined functions; the definition is only
+#      needed by the spec-level lemmas, e.g. involution, which are proved over bit-vectors)
+bxor8 = z3.Function("bxor8", z3.IntSort(), z3.IntSort(), z3.IntSort())
+band8 = z3.Function("band8", z3.IntSort(), z3.IntSort(), z3.IntSort())
+bor8 = z3.Function("bor8", z3.IntSort(), z3.IntSort(), z3.IntSort())
+
+
+def bit8_definitions():
+    """definitional axioms (exact bitwise semantics on octets), for lemma proofs"""
+    a, b = z3.Ints("ax_a ax_b")
+    rng = z3.And(a >= 0, a <= 255, b >= 0, b <= 255)
+    A, B = z3.Int2BV(a, 8), z3.Int2BV(b, 8)
+    return [z3.ForAll([a, b], z3.Implies(rng, bxor8(a, b) == z3.BV2Int(A ^ B)), patterns=[bxor8(a, b)]),
+            z3.ForAll([a, b], z3.Implies(rng, band8(a, b) == z3.BV2Int(A & B)), patterns=[band8(a, b)]),
+            z3.ForAll([a, b], z3.Implies(rng, bor8(a, b) == z3.BV2Int(A | B)), patterns=[bor8(a, b)])]
+
+
+# ---- bytes <-> array('B')   (elements are octets 0..255 in both representations)
 def bytes_to_array(ex, state, t):
-    arr = z3.Array(fresh_name("arr_of_bytes"), z3.IntSort(), z3.BitVecSort(8))
+    arr = z3.Array(fresh_name("arr_of_bytes"), z3.IntSort(), z3.IntSort())
     i = z3.Int(fresh_name("ax_i"))
-    state.assume(z3.ForAll([i], z3.Implies(z3.And(i >= 0, i < z3.Length(t)),
-                                            z3.And(z3.BV2Int(z3.Select(arr, i)) == t[i], t[i] >= 0, t[i] <= 255)),
+    state.assume(z3.ForAll([i], z3.Implies(z3.And(i >= 0, i < z3.Length(t)), z3.Select(arr, i) == t[i]),
                            patterns=[z3.Select(arr, i)]))
     return arr
 
@@ -124,6 +140,5 @@ def array_to_bytes(ex, state, arr, n):
     t = z3.Const(fresh_name("bytes_of_arr"), BytesSort)
     i = z3.Int(fresh_name("ax_i"))
     state.assume(z3.Length(t) == n)
-    state.assume(z3.ForAll([i], z3.Implies(z3.And(i >= 0, i < n), t[i] == z3.BV2Int(z3.Select(arr, i))),
-                           patterns=[t[i]]))
+    state.assume(z3.ForAll([i], z3.Implies(z3.And(i >= 0, i < n), t[i] == z3.Select(arr, i)), patterns=[t[i]]))
     return t
